@@ -513,14 +513,26 @@ class C05(common.Prop):
                             for l, pt in enumerate(jp):
                                 base = ((i * P + j) * T + off + l)
                                 exp = {}
-                                for d, ch in enumerate(fmt[:-1]):
-                                    exp[(ch,)] = data[base * D + d] if d < D else None
+                                beyond = set()     # letters naming a coordinate Python does not have (index >= D): no claim
                                 if vclass == "v00":
+                                    # interleaved floats: Python takes floats 0 .. len-2 as coordinates, the last as confidence
+                                    for d, ch in enumerate(fmt[:-1]):
+                                        exp[(ch,)] = data[base * D + d] if d < D else None
                                     if fmt:
                                         exp[(fmt[-1],)] = conf[base]
                                 else:
+                                    # the k-th coordinate letter (letters other than "C", in format order) names coordinate k
+                                    k = 0
+                                    for ch in fmt:
+                                        if ch == 67:
+                                            continue
+                                        if k < D:
+                                            exp[(ch,)] = data[base * D + k]
+                                        else:
+                                            beyond.add((ch,))
+                                        k += 1
                                     exp[(67,)] = conf[base]
-                                got = {k: f32_of_canon(x) for k, x in pt[1]} if pt[0] == "o" else None
+                                got = {k: f32_of_canon(x) for k, x in pt[1] if k not in beyond} if pt[0] == "o" else None
                                 cells += 1
                                 if got != exp:
                                     bad.append(("cell", (i, j, tuple(pc["name"]), l, got), exp))
